@@ -71,8 +71,8 @@ def rand_float_text(rng):
             t = "." + digits            # no digit before the decimal point
         elif rng.random() < 0.1:
             t = digits + "."            # none after it
-    elif style < 0.5:      # integer-looking
-        t = digits
+    elif style < 0.5:      # integer-looking, sometimes with zeros appended: whole numbers up to and beyond the 64-bit integer range
+        t = digits + ("0" * rng.randint(1, 22 - nd) if rng.random() < 0.3 else "")
     else:                  # scientific, lower-case e
         cut = rng.randint(1, nd)
         mant = digits[:cut] + ("." + digits[cut:] if digits[cut:] else "")
@@ -474,6 +474,9 @@ def run(ctx):
             rows = [(c_, ("+" + a_ if rng.random() < 0.5 else a_), ("0" * rng.randint(0, 2) + b_)) for c_, a_, b_ in rows]
         call(case_bed, rows)
         rows = [(rng.randint(0, 10 ** 6), rng.randint(0, 10 ** 6), rand_float_text(rng)) for _ in range(n)]
+        if rng.random() < 0.3:
+            # a column in which every line is a whole number without fraction or exponent (counts), of any magnitude
+            rows = [(a_, b_, rng.choice(["", "", "-"]) + str(rng.randint(1, 9)) + "".join(rng.choice("0123456789") for _ in range(rng.choice([0, 1, 5, 16]))) + "0" * rng.choice([0, 0, 2, 3, 5])) for a_, b_, _ in rows]
         call(case_bdg, rows)
 
     # ---- F2. missing-value parsers: '.' and '' are missing, everything else is the number --------------------------------
@@ -486,6 +489,7 @@ def run(ctx):
         ctx.check("with-missing", ok, "str_to_float_with_missing/value-or-missing", "str_to_float_with_missing(%r) gave %r" % (texts, got), {"texts": texts, "got": [str(g) for g in got]}, tuple(texts))
         its = [t for t in texts if "." not in t[1:] and "e" not in t and not t.startswith(".") or t in (".", "")]
         its = [t if t in (".", "") else t.split(".")[0] or "0" for t in its]
+        its = [t for t in its if t in (".", "") or -2 ** 63 <= int(t) < 2 ** 63]          # the integer clause quantifies over int64 values
         if its:
             gi_ = np.asarray(strops.str_to_int_with_missing(bnp.as_encoded_array(its))).tolist()
             ei_ = [0 if t in (".", "") else int(t) for t in its]
